@@ -12,6 +12,14 @@ package build
 // first write to a matching path, with VERIF_CRASH_TORN=1 after half of it) or
 // make the call fail (VERIF_FSERR=k:errno, VERIF_FSERR_MATCH).  With none of
 // these variables set the seam only forwards.
+//
+// Concurrent builders: with VERIF_GATE=<dir> every numbered point first
+// announces itself on the named pipe <dir>/req ("<k> <op> <path>") and waits for
+// one byte on <dir>/ack.  The harness runs several llgo processes on one cache
+// directory this way and releases exactly one of them at a time, so that the
+// interleaving of their cache operations is the harness's (seeded, recorded)
+// decision: 'g' go on, 'k' die here (kill -9), 't' die half-way through this
+// write, 'e' this operation fails with ENOSPC.
 
 import (
 	"fmt"
@@ -29,9 +37,55 @@ var vos verifOS
 var verifOps int
 var verifMatched bool
 
+var (
+	verifGateReq, verifGateAck *os.File
+	verifGateOff               bool
+	verifTornNow               bool
+)
+
+// verifGate parks the process until the harness releases it; it returns the
+// harness's order for this operation.
+func verifGate(k int, op, path string) byte {
+	dir := os.Getenv("VERIF_GATE")
+	if dir == "" || verifGateOff {
+		return 'g'
+	}
+	if verifGateReq == nil {
+		var err error
+		if verifGateReq, err = os.OpenFile(dir+"/req", os.O_WRONLY, 0); err != nil {
+			verifGateOff = true
+			return 'g'
+		}
+		if verifGateAck, err = os.OpenFile(dir+"/ack", os.O_RDONLY, 0); err != nil {
+			verifGateOff = true
+			return 'g'
+		}
+	}
+	fmt.Fprintf(verifGateReq, "%d %s %s\n", k, op, path)
+	var b [1]byte
+	if n, _ := verifGateAck.Read(b[:]); n != 1 {
+		verifGateOff = true // the harness has gone away
+		return 'g'
+	}
+	return b[0]
+}
+
 func verifPoint(op, path string) error {
 	verifOps++
 	k := verifOps
+	switch verifGate(k, op, path) {
+	case 'k':
+		os.Exit(137)
+	case 't':
+		if op != "write" {
+			os.Exit(137)
+		}
+		verifTornNow = true
+	case 'e':
+		if op != "stat" && op != "readfile" && op != "open" && op != "readdir" {
+			return &fs.PathError{Op: op, Path: path, Err: syscall.ENOSPC}
+		}
+	}
 	if log := os.Getenv("VERIF_OPLOG"); log != "" {
 		if f, err := os.OpenFile(log, os.O_APPEND|os.O_CREATE|os.O_WRONLY, 0o644); err == nil {
 			fmt.Fprintf(f, "%d %s %s\n", k, op, path)
@@ -192,6 +246,10 @@ func (v *verifFile) Write(p []byte) (int, error) {
 	}
 	if err := verifPoint("write", v.f.Name()); err != nil {
 		return 0, err
+	}
+	if verifTornNow {
+		v.f.Write(p[:len(p)/2]) // torn write ordered by the harness, then the process dies
+		os.Exit(137)
 	}
 	if c := os.Getenv("VERIF_CRASH_AT"); c != "" && os.Getenv("VERIF_CRASH_TORN") != "" {
 		if n, _ := strconv.Atoi(c); n == verifOps {
